@@ -32,9 +32,10 @@ const (
 	cfFailNow
 	cfFail
 	cfPanicErr
+	cfNested // the cleanup registers another cleanup while it runs (the nested one is not judged)
 )
 
-var cfNames = []string{"ok", "panic", "FailNow", "Fail", "panic(err)"}
+var cfNames = []string{"ok", "panic", "FailNow", "Fail", "panic(err)", "registers-another-cleanup"}
 
 func cleanupFault(t *f1testing.T, kind int) {
 	switch kind {
@@ -46,6 +47,8 @@ func cleanupFault(t *f1testing.T, kind int) {
 		t.Fail()
 	case cfPanicErr:
 		panic(fmt.Errorf("cleanup error panic"))
+	case cfNested:
+		t.Cleanup(func() {})
 	}
 }
 
@@ -62,7 +65,7 @@ func c06PlanFor(seed, id uint64) c06BodyPlan {
 	for i := 0; i < n; i++ {
 		k := cfPass
 		if r.IntN(3) == 0 {
-			k = 1 + r.IntN(4)
+			k = 1 + r.IntN(5)
 		}
 		p.cleanups = append(p.cleanups, k)
 	}
@@ -108,7 +111,7 @@ func init() {
 				for k := 0; k < ns; k++ {
 					f := cfPass
 					if r.IntN(4) == 0 {
-						f = 1 + r.IntN(4)
+						f = 1 + r.IntN(5)
 					}
 					p.SetupCleanups = append(p.SetupCleanups, f)
 				}
@@ -413,7 +416,7 @@ func c06Run(c *core.Case, o *core.Outcome) {
 				registered = true
 			}
 		}
-		if registered && f != cfPass {
+		if registered && f != cfPass && f != cfNested {
 			anyFaultySetupCleanup = true
 		}
 	}
